@@ -422,7 +422,7 @@ PROPS = {
         "assumptions": ["as C02 for decodability"],
     },
     "C06": {
-        "streams": ["hist", "enc"],
+        "streams": ["hist", "enc", "bulk"],
         "rule": "construction histories, bytes compared after EVERY step with the model and (oracle) with the encoding of a freshly collected vector: VecDeque<u8/u32/String/derived/Option<u16>> under 5..45 random push_front/push_back/pop/rotate/make_contiguous/reserve/shrink_to_fit/insert (the model receives the actual two slices of as_slices(); the evidence counts steps in a wrapped state); Vec/String under push/pop/reserve/shrink/remove; BTreeMap/BTreeSet reached by two different insert/remove histories; LinkedList under push/split_off/append; BitSlice<u8..u64, Lsb0/Msb0> sub-slices at every start offset 0..2w and six lengths vs a fresh BitVec of the same bits; Box/Rc/Rc-clone/Arc/Cow::Borrowed/Cow::Owned/&T/&&T/Box<&T> holders of one value; plus the enc stream (oracle: encoding twice gives the same bytes). non-trivial = distinct request whose model answer is not `err`",
         "level_text": "Proved in Lean: for EVERY split of a deque's contents into the two slices as_slices() may return the transliterated VecDeque::encode_to yields the encoding of the vector of its elements (every ring-buffer state at once); for any lawful key order the same entries inserted in any order (any permutation) produce the same iteration order and hence the same map/set encoding; Box/Rc/Arc are transparent (and &T, &mut T, Cow, Ref are the held type in a descriptor); collection flavour and size_of/capacity do not enter the encoding; a bit sequence's encoding is a function of its bit list alone; the encoder is a function (determinism). In the model a value IS its logical content, so spare capacity, ring position, insertion history and bit offset cannot influence the model's bytes - that this frame condition holds of the real code is what the hist stream establishes step by step. The modelled key order (Val.cmp) is proved a lawful total order on all values (swap, transitivity, equality only on identical values), so the map/set theorems hold unconditionally for it.",
         "level_note": "Trusted: as C01. VecDeque::as_slices (its two slices concatenate to the content), BTreeMap/BTreeSet iteration in key order, BitSlice::chunks / copy_from_bitslice are std/bitvec contracts - exactly the hypotheses of the theorems - exercised by the tie. The lawfulness of Ord for key types is an assumption of the map theorem (proved for the model order only as far as antisymmetry). BinaryHeap is deliberately outside this property (its encoding follows its internal order).",
